@@ -245,52 +245,6 @@ def gate_obligations(run: Run) -> Tuple[int, int, Dict[str, Any]]:
     return n, ok, info
 
 
-def merge_obligations(run: Run) -> Tuple[int, int]:
-    """create_lsp_model: the first document is loaded, every further one is loaded and each of the five declaration lists
-    is extended by exactly the corresponding list of the addition, in a loop over models[1:], in order (structural)."""
-    tree = ast.parse(open(os.path.join(REPO, MODEL_REL), encoding="utf-8").read())
-    fn = next((f for f in tree.body if isinstance(f, ast.FunctionDef) and f.name == "create_lsp_model"), None)
-    n = ok = 0
-
-    def ob(cond, key, what, **d):
-        nonlocal n, ok
-        n += 1
-        if cond:
-            ok += 1
-        else:
-            run.violation(key, what, d, False)
-
-    ob(fn is not None, "merge:create_lsp_model:exists", "create_lsp_model missing")
-    if fn is None:
-        return n, ok
-    param = fn.args.args[0].arg if fn.args.args else "models"
-    src = ast.unparse(fn)
-    fields = ["requests", "notifications", "structures", "enumerations", "typeAliases"]
-    first = [x for x in ast.walk(fn) if isinstance(x, ast.Assign) and ast.unparse(x.value).replace(" ", "") == f"LSPModel(**{param}[0])"]
-    ob(len(first) == 1, "merge:create_lsp_model:first", f"the result is not initialised as LSPModel(**{param}[0])", source=src[:600])
-    spec_name = ast.unparse(first[0].targets[0]) if first else "spec"
-    loops = [x for x in ast.walk(fn) if isinstance(x, ast.For)]
-    ob(len(loops) == 1 and ast.unparse(loops[0].iter).replace(" ", "") == f"{param}[1:]", "merge:create_lsp_model:loop", f"the additions are not taken from a single loop over {param}[1:] (in order)", loops=[ast.unparse(l.iter) for l in loops])
-    if len(loops) == 1:
-        lp = loops[0]
-        var = ast.unparse(lp.target)
-        adds = [x for x in lp.body if isinstance(x, ast.Assign) and ast.unparse(x.value).replace(" ", "") == f"LSPModel(**{var})"]
-        ob(len(adds) == 1, "merge:create_lsp_model:addition", "each further document is not loaded as LSPModel(**model) exactly once per iteration")
-        add_name = ast.unparse(adds[0].targets[0]) if adds else "addition"
-        calls = [ast.unparse(x.value).replace(" ", "") for x in lp.body if isinstance(x, ast.Expr) and isinstance(x.value, ast.Call)]
-        for f in fields:
-            want = f"{spec_name}.{f}.extend({add_name}.{f})"
-            ob(calls.count(want) == 1, f"merge:create_lsp_model:extend:{f}", f"the loop body does not extend {spec_name}.{f} by {add_name}.{f} exactly once (calls: {calls})")
-        other = [c for c in calls if c not in {f"{spec_name}.{f}.extend({add_name}.{f})" for f in fields}]
-        others_stmt = [type(x).__name__ for x in lp.body if not (isinstance(x, ast.Assign) or (isinstance(x, ast.Expr) and isinstance(x.value, ast.Call)))]
-        ob(not other and not others_stmt, "merge:create_lsp_model:frame", f"the loop body does something besides the five extends ({other} {others_stmt})")
-        skips = [type(x).__name__ for x in ast.walk(lp) if isinstance(x, (ast.Continue, ast.Break, ast.If))]
-        ob(not skips, "merge:create_lsp_model:no-skip", f"the merge loop is conditional ({skips}): some document or declaration can be skipped")
-    rets = [x for x in ast.walk(fn) if isinstance(x, ast.Return)]
-    ob(len(rets) == 1 and rets[0].value is not None and ast.unparse(rets[0].value) == spec_name, "merge:create_lsp_model:return", "create_lsp_model does not return the merged model")
-    return n, ok
-
-
 def run_gate_native(run: Run, plugins: List[str], tmp: str) -> int:
     """Schema-violating single edits x plugins: the command must fail and write nothing (replay of the gate)."""
     import jsonschema
@@ -499,19 +453,105 @@ def main(argv: List[str]) -> int:
             out[k] = keys_from[k][int(n * lo) : int(n * hi)]
         return out
 
-    for cuts in ([0, 0.5, 1], [0, 0.3, 0.6, 1], [0, 1, 1], [0, 0, 1]):
-        parts = [part(doc, cuts[i], cuts[i + 1]) for i in range(len(cuts) - 1)]
+    def expected_whole(parts: List[Dict]) -> Dict:
+        whole = {"metaData": parts[0]["metaData"]}
+        for k in ("requests", "notifications", "structures", "enumerations", "typeAliases"):
+            whole[k] = [x for p_ in parts for x in p_[k]]
+        return whole
+
+    def concat_case(parts: List[Dict], key: str, what: str, **d):
         try:
             merged = model.create_lsp_model(copy.deepcopy(parts))
-            whole = {"metaData": parts[0]["metaData"]}
-            for k in ("requests", "notifications", "structures", "enumerations", "typeAliases"):
-                whole[k] = [x for p in parts for x in p[k]]
-            tab(drop_empty_defaults(read_back(merged)) == drop_empty_defaults(whole), f"merge:concat:{len(parts)}", f"create_lsp_model of {len(parts)} documents is not the first extended in order by the others", cuts=cuts)
+            whole = expected_whole(parts)
+            got = drop_empty_defaults(read_back(merged))
+            tab(got == drop_empty_defaults(whole), key, what, first_difference=_first_diff(drop_empty_defaults(whole), got), **d)
         except Exception as e:  # noqa
-            tab(False, f"merge:concat:{len(parts)}", f"create_lsp_model of {len(parts)} documents raises {type(e).__name__}: {e}", cuts=cuts)
-    nm, okm = merge_obligations(run)
-    n_tab += nm
-    d_tab += okm
+            tab(False, key, f"{what}: raises {type(e).__name__}: {e}", **d)
+
+    for cuts in ([0, 0.5, 1], [0, 0.3, 0.6, 1], [0, 1, 1], [0, 0, 1], [0, 0.2, 0.4, 0.6, 0.8, 1]):
+        parts = [part(doc, cuts[i], cuts[i + 1]) for i in range(len(cuts) - 1)]
+        concat_case(parts, f"merge:concat:{len(parts)}", f"create_lsp_model of {len(parts)} documents is not the first extended in order by the others", cuts=cuts)
+    # documents that differ in their metaData, and documents that repeat a declaration of an earlier one: still plain concatenation
+    parts = [part(doc, 0, 0.5), part(doc, 0.5, 1)]
+    parts[1]["metaData"] = {"version": "0.0.0-verif"}
+    concat_case(parts, "merge:concat:other-metadata", "create_lsp_model of two documents with different metaData is not the first extended in order by the second")
+    parts = [part(doc, 0, 0.5), part(doc, 0.4, 1)]
+    concat_case(parts, "merge:concat:repeated-declarations", "create_lsp_model of two documents that repeat declarations is not the first extended in order by the second (declarations dropped, reordered or de-duplicated)")
+    parts = [part(doc, 0, 1)]
+    concat_case(parts, "merge:concat:1", "create_lsp_model of a single document is not that document")
+    # merge as a loop-invariant proof over the real create_lsp_model; the structural (pattern) obligations are only the
+    # stand-in when the function leaves the verified subset
+    from contracts import merge as merge_c
+    from pyvc import vc as _vc
+
+    mworld, mrep = merge_c.report()
+    merge_mode = "proof"
+    if mrep is None:
+        run.violation("merge:create_lsp_model:exists", "create_lsp_model missing", {}, False)
+    elif mrep.unsupported:
+        merge_mode = f"bounded stand-in: evaluation on splits and histories only (outside the verified subset: {mrep.unsupported})"
+        stats.unsupported.append(f"{merge_c.REL}::create_lsp_model: {mrep.unsupported}")
+        run.notes.append(f"create_lsp_model is outside the verified subset ({mrep.unsupported}); the evaluation on splits / tiny documents / histories stands in (bounded, not counted as proved)")
+    else:
+        stats.functions.append(f"{merge_c.REL}::create_lsp_model")
+        stats.solver_s += _vc.solve(mworld, mrep.obligations)
+        posts = [o for o in mrep.obligations if o.expect == "unsat"]
+        reach = [o for o in mrep.obligations if o.kind == "reach"]
+        if not posts or not any(o.answer == "sat" for o in reach):
+            run.crash("create_lsp_model: no obligation / no reachable path under n >= 1 (vacuous)")
+        if not any(o.kind == "loop" for o in posts):
+            run.notes.append("create_lsp_model contains no loop over the documents: only the postcondition is generated")
+        stats.obligations += len(posts)
+        stats.reach_total += len(reach)
+        stats.reach_sat += len([o for o in reach if o.answer == "sat"])
+        seen_kinds = set()
+        for o in posts:
+            if o.answer == "unsat":
+                stats.discharged += 1
+                stats.by_backend[o.backend] += 1
+            elif o.answer == "sat":
+                kind = "loop-init" if ":loop-init#" in o.name else "loop-preserve" if ":loop-preserve#" in o.name else "post"
+                if kind in seen_kinds:
+                    continue
+                seen_kinds.add(kind)
+                stats.failed.append(o.name)
+                nmod = (o.model or {}).get("n_models")
+                witness = None
+                for nparts in sorted({min(max(int(nmod), 1), 5) if isinstance(nmod, int) else 2, 1, 2, 3}):
+                    cuts = [i / nparts for i in range(nparts + 1)]
+                    parts = [part(doc, cuts[i], cuts[i + 1]) for i in range(nparts)]
+                    whole = {"metaData": parts[0]["metaData"]}
+                    for k in ("requests", "notifications", "structures", "enumerations", "typeAliases"):
+                        whole[k] = [x for p_ in parts for x in p_[k]]
+                    try:
+                        got = drop_empty_defaults(read_back(model.create_lsp_model(copy.deepcopy(parts))))
+                        if got != drop_empty_defaults(whole):
+                            witness = {"documents": f"generator/lsp.json cut into {nparts} consecutive parts", "first_difference": _first_diff(drop_empty_defaults(whole), got)}
+                    except Exception as e:  # noqa
+                        witness = {"documents": f"generator/lsp.json cut into {nparts} consecutive parts", "observed": f"raises {type(e).__name__}: {e}"}
+                    if witness:
+                        break
+                what = {
+                    "loop-init": "on entry to the merge loop the accumulated model is not the first document's declarations (the invariant 'lists == concatenation of documents 0..i-1' does not hold initially)",
+                    "loop-preserve": "one iteration of the merge loop does not extend each of the five declaration lists by exactly the next document's list, in order",
+                    "post": "create_lsp_model does not return the first document's model with the five lists extended in order by all further documents",
+                }[kind]
+                run.violation(
+                    f"merge:create_lsp_model:{kind}",
+                    what + (f"; e.g. {witness['documents']}: {witness.get('first_difference') or witness.get('observed')}" if witness else ""),
+                    {"obligation": o.name, "path": o.meta, "smt_model": {k: v for k, v in (o.model or {}).items() if not str(k).startswith("h_")}, "solver_output": o.solver_output[-1500:], **(witness or {})},
+                    bool(witness),
+                )
+            else:
+                run.undecide(f"{o.name}: {o.answer}")
+        if run.tier == "thorough":
+            agree, dis, dtc = _vc.cross_check(mworld, mrep.obligations, "cvc5")
+            stats.solver_s += dtc
+            c = stats.cross.setdefault("cvc5", {"agree": 0, "disagree": []})
+            c["agree"] += agree
+            c["disagree"].extend(dis)
+            for d_ in dis:
+                run.crash(f"solver disagreement: {d_}")
     # merging is a function of the documents: the same parsed documents merged twice give equal models and are not mutated
     try:
         parts = [part(doc, 0, 0.5), part(doc, 0.5, 1)]
@@ -556,7 +596,7 @@ def main(argv: List[str]) -> int:
         "field values of model objects are opaque in the VCs: `a.f == b.f` is an uninterpreted Boolean per field and pair of owners (equality of lists / nested nodes is Python's and the nested class's own contract)",
         "jsonschema.validate raises iff the document is invalid for the schema object it is given",
         "the gate's control-flow obligations are structural (AST) facts about main(): validate and append are unconditional statements of one loop over all model files, in that order, before create_lsp_model and the plugin",
-        "merge = concatenation: structural obligations on create_lsp_model (first document loaded, one loop over models[1:], exactly the five extends per iteration, nothing conditional) plus evaluation on splits of the committed model; list.extend semantics assumed",
+        "merge = concatenation: create_lsp_model is executed symbolically for a list of n >= 1 opaque documents with the Hoare loop rule; invariant: the lists of the object loaded from document 0 equal L_f(0) ++ ... ++ L_f(i-1); obligations loop-init, loop-preserve (arbitrary iteration) and the postcondition at exit. Assumed: LSPModel(**doc) allocates a fresh object whose five lists depend only on doc (L_f uninterpreted, sort Seq Int: one integer per declaration), list.extend / += append in place, + builds a new list, attribute cells never alias, documents are not mutated (checked natively: merge:history:documents-mutated). If the function leaves the subset the structural obligations stand in and the evidence says so",
         "lossless loading rests on the finite schema <-> model-class comparison plus attrs constructor semantics (assumed); read-back is evaluated on the committed model",
     )
     cov = stats.coverage()
@@ -571,6 +611,7 @@ def main(argv: List[str]) -> int:
             "gate_obligations": ng,
             "gate_native_runs": gate_runs,
             "main_call_order": ginfo.get("call_order"),
+            "merge_decided_by": merge_mode,
             "samples": stats.samples[:4],
         }
     )
